@@ -41,7 +41,7 @@ PROPS = {
     "C02": P("unbonding payout", ["queues", "default", "genesis"], ["theorem.INV-I", "theorem.C02", "uq", "ui", "bank", "clock"], ["undelegate", "endblock", "slash", "reimport"],
              "queue/index theorems over the model; correspondence on undelegate, end-of-block and slash steps",
              module=None),
-    "C03": P("share ledger", ["default", "queues", "big", "genesis"], ["vals", "dels", "assets"], ALL_OPS,
+    "C03": P("share ledger", ["default", "queues", "big", "genesis"], ["theorem.STORES", "vals", "dels", "assets"], ALL_OPS,
              "share-sum invariants over the model; correspondence of every share mutation", module=None),
     "C04": P("position isolation", ["default", "big"], ["theorem.C04", "vals", "dels", "assets"], USER_OPS,
              "value-frame theorems over the model; correspondence of the share arithmetic", module=None),
@@ -63,7 +63,7 @@ PROPS = {
              "mint/burn pairing theorems; correspondence of supply and pool balances; the bank SupplyOf/TotalSupply queries against the model's net-supply functions (`Q` lines)", module=None, probes="C11"),
     "C12": P("reward pool solvency", ["rewards"], ["theorem.C12", "vals", "dels", "bank"], USER_OPS + ["slash", "endblock"],
              "partial solvency theorem; claim-all probes on a discarded branch", module=None, probes="C12"),
-    "C13": P("reward entitlement", ["rewards"], ["vals", "dels", "bank"], USER_OPS,
+    "C13": P("reward entitlement", ["rewards"], ["theorem.C13", "vals", "dels", "bank"], USER_OPS,
              "index/claim theorems; correspondence of reward indices and payouts", module=None, probes="C13"),
     "C14": P("reward weight lifecycle", ["gov", "default"], ["assets", "snaps", "vals"], ["endblock", "update", "create"],
              "range invariant and decay exactness; correspondence of end-of-block and governance steps", module=None),
